@@ -88,11 +88,33 @@ let () =
         let names = Array.of_list (List.map str_of_field (split ',' names)) in
         let name_index n =
           let r = ref (-1) in Array.iteri (fun i x -> if !r < 0 && x = n then r := i) names; !r in
+        (* a trailing w<k>:<mut> (VisitMailboxes whose visitor says stop at its k-th non-empty mailbox,
+           optionally removing the oldest message of each mailbox it is handed) is judged on the final
+           abstract state: the walk hands over exactly min k (number of non-empty mailboxes) mailboxes,
+           each with its listing, never calls the visitor again, and (mut) exactly those lose their oldest *)
+        let (ops, wop) =
+          let l = if ops = "-" then [] else split ',' ops in
+          match List.rev l with
+          | w :: rest when String.length w > 0 && w.[0] = 'w' ->
+              ((if rest = [] then "-" else String.concat "," (List.rev rest)), Some w)
+          | _ -> (ops, None) in
         let ops = parse_ops deliver names ops in
         let cfg = { c_cap = nat_of_int (int_of_string cap); c_max = n_of_int (1024 * int_of_string maxkb) } in
         let model = if kind = "mem" then run_mem cfg ops else run_file cfg [] ops in
-        let mtoks = tokens name_index model in
-        let stoks = tokens name_index (run_spec cfg spec_init ops) in
+        let wtok = match wop with
+          | None -> []
+          | Some w ->
+              (match split ':' (String.sub w 1 (String.length w - 1)) with
+               | k :: rest ->
+                   let k = int_of_string k and mut = (rest = ["1"]) in
+                   let n = List.length (spec_visit (final_spec cfg spec_init ops)) in
+                   let h = min k n and nn = Array.length names in
+                   [if mut then Printf.sprintf "W%d:0:1:%d:%d:0:%d" h h (nn - h) h
+                    else Printf.sprintf "W%d:0:1:0:%d:0:0" h nn]
+               | [] -> ["BADW"]) in
+        let mtoks = tokens name_index model @ wtok in
+        let stoks = tokens name_index (run_spec cfg spec_init ops) @ wtok in
+        let ops = if wtok = [] then ops else ops @ [Visit] in
         (* oracle: spec vs implementation *)
         let rec first_diff i ops st im =
           match st, im with
